@@ -29,6 +29,8 @@ def parse(hx):
 
 def sent_of(ev):
     """(client, Msg) of an S event"""
+    if ev[0] != "S":
+        return None, None
     _, c, hx = ev.split(".")
     m, _ = rawbus.parse_message(bytes.fromhex(hx))
     return int(c), m
@@ -88,7 +90,7 @@ def abstract_ok(o, rcv, c, sent, world, becoming):
 
 def compare(case, toks, impl):
     """returns list of (event index, text)"""
-    name, maxc, events = case
+    name, maxc, events = case[:3]
     res, probe = impl[0], impl[1]
     diffs = []
     w = World()
@@ -137,6 +139,9 @@ def compare(case, toks, impl):
                     must, may = mons, set()
                 elif s[0] == "x":
                     must, may = set(), set(w.live) - mons
+                elif s[0] == "k":
+                    # a kept message, dispatched because this step's RequestName gave the name an owner
+                    must, may = ({c} if c in w.live else set()), set(w.live) - mons
                 else:
                     must, may = set(mons), None
                     d = pm.fields.get(F_DESTINATION)
@@ -212,11 +217,13 @@ def compare(case, toks, impl):
 def oracle(case, impl):
     """The property, on the implementation's behaviour alone.
     returns (violations [(event index, text)], known [(finding id, sample)], stats dict)"""
-    name, maxc, events = case
+    name, maxc, events = case[:3]
+    acts = dict(case[3]) if len(case) > 3 else {}
     res, probe = impl[0], impl[1]
     viol, known = [], []
+    written = {}        # serial -> (client, message, the name the bus had given that client) for messages that may be kept
     st = {"forwarded_copies": 0, "bus_originated": 0, "forged_sender_dropped": 0, "unknown_fields_dropped": 0, "container_dropped": 0,
-          "names_issued": 0, "closed_by_bus": 0, "local_replies": 0, "monitor_copies": 0, "placeholder_copies": 0, "second_hello_refused": 0, "monitor_hello_copies": 0,
+          "names_issued": 0, "closed_by_bus": 0, "local_replies": 0, "monitor_copies": 0, "placeholder_copies": 0, "second_hello_refused": 0, "monitor_hello_copies": 0, "kept_then_released": 0, "start_failures_reported": 0,
           "copies_be": 0}
     names = {}          # live client -> unique name the implementation gave it (Hello reply)
     issued = []         # every name ever given out, in order
@@ -235,6 +242,8 @@ def oracle(case, impl):
             names.pop(c, None)
             monitors.discard(c)
         st["closed_by_bus"] += len(r["closed"])
+        if sent is not None and sent.fields.get(F_DESTINATION) in acts and c in names:
+            written[sent.serial] = (c, sent, names[c])
         new_name = None
         if sent is not None and sent.fields.get(F_MEMBER) == "Hello" and sent.fields.get(F_DESTINATION) == BUS and sent.mtype == METHOD_CALL:
             # the name the bus hands out in this step, as told to the client itself
@@ -254,7 +263,19 @@ def oracle(case, impl):
                 if GEN_LO <= o.serial < GEN_HI:
                     # a forwarded copy of what a client wrote: only this event's message can be in flight
                     if sent is None or o.serial != sent.serial:
-                        viol.append((k, "client %d received a message with a client serial that was not just sent: %r" % (rcv, o)))
+                        # only a message the bus kept for a service being started may arrive later; it must
+                        # still name the connection that wrote it, by the name it had then, and be intact
+                        if o.serial not in written:
+                            viol.append((k, "client %d received a message with a client serial that was not just sent: %r" % (rcv, o)))
+                            continue
+                        wc, wm, wn = written[o.serial]
+                        st["kept_then_released"] += 1
+                        if snd != wn:
+                            viol.append((k, "client %d received a kept message written by %s with sender %r: %r" % (rcv, wn, snd, o)))
+                        sf = {code: v for code, v in wm.fields.items() if code not in (F_SENDER, F_CONTAINER)}
+                        of = {code: v for code, v in o.fields.items() if code != F_SENDER}
+                        if (o.mtype, o.flags, o.serial, o.sig, tuple(o.body)) != (wm.mtype, wm.flags, wm.serial, wm.sig, tuple(wm.body)) or sf != of:
+                            viol.append((k, "client %d received an altered copy of a kept message: written %r, received %r" % (rcv, wm, o)))
                         continue
                     st["forwarded_copies"] += 1
                     st["copies_be"] += 0 if o.le else 1
@@ -293,6 +314,8 @@ def oracle(case, impl):
                             viol.append((k, "client %d received a message without SENDER outside the recorded class: %r" % (rcv, o)))
                     elif snd != BUS:
                         viol.append((k, "client %d received a bus-originated message (serial %d) with sender %r: %r" % (rcv, o.serial, snd, o)))
+                    if o.mtype == ERROR and o.fields.get(F_ERROR_NAME, "").startswith("org.freedesktop.DBus.Error.Spawn."):
+                        st["start_failures_reported"] += 1
                     # names the bus hands out
                     if sent is not None and rcv == c and o.mtype == METHOD_RETURN and snd == BUS and o.fields.get(F_REPLY_SERIAL) == sent.serial and \
                             sent.fields.get(F_MEMBER) == "BecomeMonitor" and sent.fields.get(F_DESTINATION) == BUS:
